@@ -944,4 +944,330 @@ theorem set_inv (s : State) (mode : SetMode) (root : Option Addr) (addrs : List 
         have h2 : t.change.toNat ≤ 1 := by omega
         omega
 
+/-! ## `updateGC` (Get / GetMulti in request mode) -/
+
+/-- re-keying the entry to `(now, bin, addr)` does not land on another existing entry -/
+def rekeyOk (s : State) (a : Addr) (bin : Nat) : Bool :=
+  if (SMap.get a s.db.access).getD 0 = 0 then true
+  else
+    match (if bin = 0 then (SMap.get a s.db.data).map (·.binID) else some bin) with
+    | none => true
+    | some b =>
+      match SMap.get (⟨(SMap.get a s.db.access).getD 0, b, a⟩ : GcKey) s.db.gc with
+      | none => true
+      | some _ =>
+        decide (s.clock = (SMap.get a s.db.access).getD 0) || (SMap.get (⟨s.clock, b, a⟩ : GcKey) s.db.gc).isNone
+
+theorem updateGC_gcWF (s : State) (a : Addr) (bin : Nat) (hw : GcWF s.db) : GcWF (updateGC s a bin).1.db := by
+  simp only [updateGC]
+  repeat' split
+  all_goals first
+    | exact hw
+    | exact gcWF_applyLog _ _ hw
+
+theorem updateGC_inv (s : State) (a : Addr) (bin : Nat) (hw : GcWF s.db) (hinv : InvDb s.db)
+    (hg : rekeyOk s a bin = true) : InvDb (updateGC s a bin).1.db := by
+  unfold InvDb at hinv ⊢
+  unfold GcWF at hw
+  simp only [rekeyOk] at hg
+  simp only [updateGC]
+  have hd : ∀ (s' : State), s'.db = s.db → s'.db.gcSize = gcSum s'.db.gc := fun s' h => by rw [h]; exact hinv
+  by_cases hts : (SMap.get a s.db.access).getD 0 = 0
+  · split <;> simp only [hts, if_true] <;> exact hinv
+  · simp only [hts, if_false] at hg
+    cases hb : (if bin = 0 then Option.map (fun x => x.binID) (SMap.get a s.db.data) else some bin) with
+    | none => split <;> simp only [hts, if_false, hb] <;> exact hinv
+    | some b =>
+      simp only [hb] at hg
+      cases hgc : SMap.get (⟨(SMap.get a s.db.access).getD 0, b, a⟩ : GcKey) s.db.gc with
+      | none => split <;> simp only [hts, if_false, hb, hgc] <;> exact hinv
+      | some c =>
+        simp only [hgc, Bool.or_eq_true, decide_eq_true_eq, Option.isNone_iff_eq_none] at hg
+        have key : gcSum (SMap.put GcKey.lt ⟨s.clock, b, a⟩ c
+            (SMap.erase ⟨(SMap.get a s.db.access).getD 0, b, a⟩ s.db.gc)) = gcSum s.db.gc := by
+          have h1 := gcSum_erase ⟨(SMap.get a s.db.access).getD 0, b, a⟩ s.db.gc hw
+          have h2 := gcSum_put ⟨s.clock, b, a⟩ c _ (SMap.nodup_keys_erase ⟨(SMap.get a s.db.access).getD 0, b, a⟩ _ hw)
+          rw [hgc] at h1
+          have h3 : SMap.get (⟨s.clock, b, a⟩ : GcKey)
+              (SMap.erase ⟨(SMap.get a s.db.access).getD 0, b, a⟩ s.db.gc) = none := by
+            rw [SMap.get_erase]
+            rcases hg with hg | hg
+            · simp [hg]
+            · simp [hg]
+          rw [h3] at h2
+          simp at h1 h2
+          omega
+        split <;> simp only [hts, if_false, hb, hgc, applyLog, List.foldl, applyDW, applyBatch, applyW] <;>
+          rw [key] <;> exact hinv
+
+/-- the guard of a `GetMulti(request)`: every re-keying in turn -/
+def rekeyOkList : State → List (Addr × Nat) → Bool
+  | _, [] => true
+  | s, (a, b) :: rest => rekeyOk s a b && rekeyOkList (updateGC s a b).1 rest
+
+theorem getMulti_fold_inv (items : List (Addr × DataVal)) : ∀ (acc : State × List DW),
+    GcWF acc.1.db → InvDb acc.1.db → rekeyOkList acc.1 (items.map (fun it => (it.1, it.2.binID))) = true →
+    InvDb (items.foldl (fun (acc : State × List DW) it =>
+        ((updateGC acc.1 it.1 it.2.binID).1, acc.2 ++ (updateGC acc.1 it.1 it.2.binID).2)) acc).1.db := by
+  induction items with
+  | nil => intro acc _ hi _; exact hi
+  | cons it rest ih =>
+    intro acc hw hi hg
+    simp only [List.map_cons, rekeyOkList, Bool.and_eq_true] at hg
+    simp only [List.foldl_cons]
+    exact ih _ (updateGC_gcWF acc.1 it.1 it.2.binID hw) (updateGC_inv acc.1 it.1 it.2.binID hw hi hg.1) hg.2
+
+/-! ## the collection run -/
+
+/-- Σ GCounter of the entries removed when the keys are erased one after the other -/
+def erasedSum : List (GcKey × Nat) → List GcKey → Nat
+  | _, [] => 0
+  | gc, k :: ks => (SMap.get k gc).getD 0 + erasedSum (SMap.erase k gc) ks
+
+def eraseKeys : List (GcKey × Nat) → List GcKey → List (GcKey × Nat)
+  | gc, [] => gc
+  | gc, k :: ks => eraseKeys (SMap.erase k gc) ks
+
+theorem eraseKeys_sum (ks : List GcKey) : ∀ (gc : List (GcKey × Nat)), (SMap.keys gc).Nodup →
+    gcSum (eraseKeys gc ks) + erasedSum gc ks = gcSum gc := by
+  induction ks with
+  | nil => intro gc _; simp [eraseKeys, erasedSum]
+  | cons k ks ih =>
+    intro gc hn
+    simp only [eraseKeys, erasedSum]
+    have h1 := ih (SMap.erase k gc) (SMap.nodup_keys_erase k gc hn)
+    have h2 := gcSum_erase k gc hn
+    omega
+
+theorem recycleWrites_gc (recycled : List (GcKey × Nat)) : ∀ (D : Db),
+    (applyBatch D (recycleWrites recycled)).gc = eraseKeys D.gc (recycled.map (·.1)) ∧
+    (applyBatch D (recycleWrites recycled)).gcSize = D.gcSize := by
+  induction recycled with
+  | nil => intro D; simp [recycleWrites, eraseKeys]
+  | cons e rest ih =>
+    intro D
+    have : recycleWrites (e :: rest) = [Write.dataDel e.1.addr, .accDel e.1.addr, .gcDel e.1] ++ recycleWrites rest := by
+      simp [recycleWrites]
+    rw [this, applyBatch_append]
+    obtain ⟨h1, h2⟩ := ih (applyBatch D [Write.dataDel e.1.addr, .accDel e.1.addr, .gcDel e.1])
+    rw [h1, h2]
+    simp [applyBatch, applyW, eraseKeys]
+
+theorem evictBatch_gcFree (B : List Write) (cids : List Addr)
+    (h : ∀ w ∈ B, (∃ x, x ∈ cids ∧ w = .pinDel x) ∨ (∃ x, w = .dataDel x)) : ∀ (D : Db),
+    (applyBatch D B).gc = D.gc ∧ (applyBatch D B).gcSize = D.gcSize := by
+  induction B with
+  | nil => intro D; simp
+  | cons w B ih =>
+    intro D
+    obtain ⟨h1, h2⟩ := ih (fun x hx => h x (by simp [hx])) (applyW D w)
+    rw [applyBatch_cons, h1, h2]
+    rcases h w (by simp) with ⟨x, _, e⟩ | ⟨x, e⟩ <;> subst e <;> simp [applyW]
+
+/-- the run's recount matches the bookkeeping: something was recycled and the number of chunks the run
+deleted (pyramid chunks + one per recycled root) equals Σ GCounter of the recycled gc entries — or the
+store is not inside a run.  (Nothing recycled forces `gcSize := 0`, which is exact only on an empty count.) -/
+def evictFaithful (s : State) (pyr : Addr → Option (List (Addr × Nat))) : Bool :=
+  !s.gcRunning ||
+    (if (evictRun s pyr).2.2.1.isEmpty then decide (s.db.gcSize = 0)
+     else decide ((evictRun s pyr).2.1 + (evictRun s pyr).2.2.1.length =
+            erasedSum s.db.gc ((evictRun s pyr).2.2.1.map (·.1))))
+
+theorem gcEvict_inv (s : State) (pyr : Addr → Option (List (Addr × Nat))) (hw : GcWF s.db) (hinv : InvDb s.db)
+    (hg : evictFaithful s pyr = true) : InvDb (gcEvict s pyr).st.db := by
+  cases hr : s.gcRunning with
+  | false => rw [(gcEvict_idle s pyr hr).2]; exact hinv
+  | true =>
+    unfold InvDb at hinv ⊢
+    unfold GcWF at hw
+    rw [gcEvict_db, gcEvict_writes s pyr hr]
+    obtain ⟨P, B, hl, hb, hdb, _, hwB, _⟩ := evictLoop_rel pyr s.dirty s.cands (Tx.start s) 0 [] []
+    have hlog : (evictRun s pyr).1.log = P.map mkPin := by simpa [evictRun, Tx.start] using hl
+    have hbat : (evictRun s pyr).1.batch = B := by simpa [evictRun, Tx.start] using hb
+    have hdb' : (evictRun s pyr).1.db = applyLog s.db (P.map mkPin) := by simpa [evictRun, Tx.start] using hdb
+    obtain ⟨_, _, fgc, _, fsz, _⟩ := applyLog_mkPin_fields P s.db
+    have hsz : (evictRun s pyr).1.db.gcSize = s.db.gcSize := by rw [hdb', fsz]
+    rw [hlog, applyLog_append]
+    simp only [applyLog_cons, applyLog_nil, applyDW, evictBatch, hbat, applyBatch_append, applyBatch_cons,
+      applyBatch_nil, applyW]
+    obtain ⟨r1, r2⟩ := recycleWrites_gc (evictRun s pyr).2.2.1 (applyBatch (applyLog s.db (P.map mkPin)) B)
+    obtain ⟨b1, b2⟩ := evictBatch_gcFree B _ hwB (applyLog s.db (P.map mkPin))
+    rw [r1, b1, fgc]
+    have hes := eraseKeys_sum ((evictRun s pyr).2.2.1.map (·.1)) s.db.gc hw
+    simp only [evictFaithful, hr, Bool.not_true, Bool.false_or] at hg
+    simp only [evictCur, evictCount, hsz]
+    by_cases hem : (evictRun s pyr).2.2.1.isEmpty = true
+    · simp only [hem, if_true, decide_eq_true_eq] at hg ⊢
+      have : (evictRun s pyr).2.2.1 = [] := by simpa using hem
+      rw [this] at hes ⊢
+      simp [eraseKeys, erasedSum] at hes ⊢
+      omega
+    · simp only [hem, Bool.false_eq_true, if_false, decide_eq_true_eq] at hg ⊢
+      rw [hg]
+      split <;> omega
+
+/-! ## startup -/
+
+theorem openDb_inv (db : Db) (cap c st : Nat) (hinv : InvDb db) : InvDb (openDb db cap c st).db := by
+  unfold InvDb at hinv ⊢
+  unfold openDb openWrites
+  have : ¬ db.gcSize < gcSum db.gc % two64 := by
+    rw [hinv]
+    have := Nat.mod_le (gcSum db.gc) two64
+    omega
+  by_cases h1 : db.schema <;> simp [h1, this, applyLog, applyDW, applyW] <;> exact hinv
+
+/-! ## one step, any operation -/
+
+/-- the items `GetMulti` re-keys, with their bin ids -/
+def multiItems (s : State) (addrs : List Addr) : Option (List (Addr × Nat)) :=
+  (addrs.mapM (fun a => (SMap.get a s.db.data).map (fun d => (a, d)))).map
+    (fun items => items.map (fun it => (it.1, it.2.binID)))
+
+/-- the guard of `C13_inv_step_partial` (see the property file for the reading of every clause) -/
+def guardOp (s : State) : Op → Bool
+  | .put m r chs => guardPut s m r chs
+  | .set m r as => guardSet s m r as
+  | .get m r a =>
+    match m, SMap.get a s.db.data with
+    | .request, some d =>
+      (match r with
+       | some r => rekeyOk s r 0
+       | none => rekeyOk s a d.binID)
+    | _, _ => true
+  | .getMulti m as =>
+    match m, multiItems s as with
+    | .request, some items => rekeyOkList s items
+    | _, _ => true
+  | .gcEvict p => evictFaithful s (pyrFun p)
+  | _ => true
+
+theorem getMulti_fold_gcWF (items : List (Addr × DataVal)) : ∀ (acc : State × List DW), GcWF acc.1.db →
+    GcWF (items.foldl (fun (acc : State × List DW) it =>
+        ((updateGC acc.1 it.1 it.2.binID).1, acc.2 ++ (updateGC acc.1 it.1 it.2.binID).2)) acc).1.db := by
+  induction items with
+  | nil => intro acc hw; exact hw
+  | cons it rest ih =>
+    intro acc hw
+    simp only [List.foldl_cons]
+    exact ih _ (updateGC_gcWF acc.1 it.1 it.2.binID hw)
+
+theorem step_gcWF (po : Addr → Nat) (s : State) (op : Op) (hw : GcWF s.db) : GcWF (step po s op).db := by
+  cases op with
+  | put m r chs =>
+    simp only [step, run, put]
+    split
+    · exact hw
+    · exact gcWF_applyLog _ _ hw
+  | set m r as => exact gcWF_applyLog _ _ hw
+  | get m r a =>
+    simp only [step, run, get]
+    split
+    · exact hw
+    · rename_i d _
+      cases m <;> simp only []
+      · cases r with
+        | none => exact updateGC_gcWF s a d.binID hw
+        | some r => exact updateGC_gcWF s r 0 hw
+      · exact hw
+      · exact hw
+      · split <;> exact hw
+      · exact hw
+  | getMulti m as =>
+    simp only [step, run, getMulti]
+    split
+    · exact hw
+    · rename_i items _
+      cases m <;> simp only []
+      · exact getMulti_fold_gcWF items (s, []) hw
+      · exact hw
+      · exact hw
+      · split <;> exact hw
+      · exact hw
+  | has m a => exact hw
+  | hasMulti m as => exact hw
+  | gcSelect =>
+    simp only [step, run, gcSelect]
+    split
+    · exact hw
+    · split <;> exact hw
+  | gcEvict p =>
+    simp only [step, run]
+    rw [gcEvict_db]
+    exact gcWF_applyLog _ _ hw
+  | reopen =>
+    simp only [step, run, reopen]
+    split
+    · exact hw
+    · exact gcWF_applyLog _ _ hw
+  | setCapacity n => exact hw
+  | setClock t st => exact hw
+
+theorem step_inv (po : Addr → Nat) (s : State) (op : Op) (hw : GcWF s.db) (hinv : InvDb s.db)
+    (hg : guardOp s op = true) : InvDb (step po s op).db := by
+  cases op with
+  | put m r chs => exact put_inv po s m r chs hw hinv hg
+  | set m r as => exact set_inv s m r as hw hinv hg
+  | get m r a =>
+    simp only [guardOp] at hg
+    simp only [step, run, get]
+    cases hd : SMap.get a s.db.data with
+    | none => exact hinv
+    | some d =>
+      simp only []
+      cases m <;> simp only [hd] at hg ⊢
+      · cases r with
+        | none => exact updateGC_inv s a d.binID hw hinv hg
+        | some r => exact updateGC_inv s r 0 hw hinv hg
+      · exact hinv
+      · exact hinv
+      · split <;> exact hinv
+      · exact hinv
+  | getMulti m as =>
+    simp only [guardOp, multiItems] at hg
+    simp only [step, run, getMulti]
+    cases hm : as.mapM (fun a => (SMap.get a s.db.data).map (fun d => (a, d))) with
+    | none => exact hinv
+    | some items =>
+      simp only []
+      cases m <;> simp only [hm, Option.map_some] at hg ⊢
+      · exact getMulti_fold_inv items (s, []) hw hinv hg
+      · exact hinv
+      · exact hinv
+      · split <;> exact hinv
+      · exact hinv
+  | has m a => exact hinv
+  | hasMulti m as => exact hinv
+  | gcSelect =>
+    simp only [step, run, gcSelect]
+    split
+    · exact hinv
+    · split <;> exact hinv
+  | gcEvict p => exact gcEvict_inv s (pyrFun p) hw hinv hg
+  | reopen =>
+    simp only [step, run, reopen]
+    split
+    · exact hinv
+    · exact openDb_inv s.db s.capacity s.clock s.clockStep hinv
+  | setCapacity n => exact hinv
+  | setClock t st => exact hinv
+
+/-- the guard along a whole history -/
+def guardH (po : Addr → Nat) : State → List Op → Bool
+  | _, [] => true
+  | s, op :: ops => guardOp s op && guardH po (step po s op) ops
+
+theorem hist_inv (po : Addr → Nat) (ops : List Op) : ∀ (s : State), GcWF s.db → InvDb s.db →
+    guardH po s ops = true → InvDb (runH po s ops).db := by
+  induction ops with
+  | nil => intro s _ hi _; exact hi
+  | cons op ops ih =>
+    intro s hw hi hg
+    simp only [guardH, Bool.and_eq_true] at hg
+    exact ih (step po s op) (step_gcWF po s op hw) (step_inv po s op hw hi hg.1) hg.2
+
+theorem gcWF_init (cap : Nat) : GcWF (init cap).db := by
+  have : GcWF ({} : Db) := by simp [GcWF, SMap.keys]
+  exact gcWF_applyLog _ _ this
+
 end Aurora.Localstore
